@@ -120,6 +120,58 @@ def pairs_for(case, V, mk):
     return out
 
 
+def runner_wiring_pairs(kind, pid_name, V, mk):
+    """The same claim through the REAL Runner.__init__: the theory card's MW, MP, GF (and the projectile) must be the ones
+    that reach the cross-section normalisation."""
+    import eko.matchings as em
+    import yadism.log
+    from yadism.runner import Runner
+    from yv.engine import npshim
+    from yv.props import c06
+
+    yadism.log.silent_mode = True
+    Vc = dict(mc=1.51, mb=4.92, mt=172.5, kc=1.0, kb=1.0, kt=1.0, Q2=V["Q2"])
+    t, o = c06.cards(Vc, "ZM-VFNS", 4, pto=0)
+    t.update(MW=V["MW"], MP=V["MP"], GF=V["GF"], MZ=91.1876)
+    o["ProjectileDIS"] = pid_name
+    o["prDIS"] = "CC" if "CC" in kind or kind in ("FW", "XSNUTEVNU") else "NC"
+    o["observables"] = {f"{kind}_total": [dict(x=V["x"], Q2=V["Q2"], y=V["y"])]}
+    with npshim.patched((em, "np", npshim.NPShim())):
+        r = Runner(t, o)
+    elem = r.observables[f"{kind}_total"].elements[0]
+    fake = FakeRunner(None, mk)
+    elem.get_esf = lambda obs_name, kin: FakeESF(fake.tensor(obs_name.name, kin))
+    res = elem.get_result()
+    pid = {"electron": 11, "positron": -11, "neutrino": 12, "antineutrino": -12}[pid_name]
+    M2h, M2W = V["MP"] * V["MP"], V["MW"] * V["MW"]
+    c = xsref.coeffs(kind, V["y"], V["x"], V["Q2"], M2h, V["MP"], M2W, V["GF"], pid < 0)
+    names = [f"F2_total", f"FL_total", f"F3_total"]
+    kin = dict(x=V["x"], Q2=V["Q2"], y=V["y"])
+    out = []
+    for o_ in ORDERS:
+        for j in range(2):
+            t_ = [fake.tensor(n, kin).orders[o_][0][0, j] for n in names]
+            out.append((f"runner:{kind}/{pid_name}: sigma[{o_}].v[{j}]", res.orders[o_][0][0, j], c[0] * t_[0] + c[1] * t_[1] + c[2] * t_[2]))
+    return out
+
+
+def replay_runner(args):
+    import random
+
+    rnd = random.Random(7)
+    tens = {}
+
+    def mk(name):
+        if name not in tens:
+            tens[name] = rnd.uniform(-2, 2)
+        return tens[name]
+
+    V = dict(args["values"])
+    prs = runner_wiring_pairs(args["kind"], args["proj"], V, mk)
+    bad = harness.float_pairs_differ(prs, None, rtol=1e-9)
+    return (True, f"{args['kind']}/{args['proj']} at {V}: {bad[:2]}") if bad else (False, "card values reach the normalisation")
+
+
 def replay_case(args):
     import random
 
@@ -137,7 +189,7 @@ def replay_case(args):
     return (True, f"{args['case']} at {vals}: {bad[:3]}") if bad else (False, "equal at this point")
 
 
-REPLAYERS = {"case": replay_case}
+REPLAYERS = {"case": replay_case, "runner": replay_runner}
 
 
 def run(chk, only=None):
@@ -193,6 +245,46 @@ def run(chk, only=None):
                 harness.prove_pairs(chk, cname, p.value, ctx.facts() + p.pc, rp_for,
                                     lambda lab, kind=kind: f"xs:{kind}:{lab.split('[')[0]}",
                                     sample={"case": case, "pairs": len(p.value), "path_condition": [str(c)[:80] for c in p.pc[:2]]})
+    # ---- the same through the real Runner: MW, MP, GF of the theory card reach the normalisation ----
+    for kind, proj in itertools.product(["XSCHORUSCC", "XSNUTEVCC", "XSNUTEVNU", "XSFPFCC", "XSHERACC", "FW", "XSHERANC"],
+                                        ["neutrino", "antineutrino", "positron"]):
+        if q and (len(kind) + len(proj)) % 2:
+            continue
+        cname = f"runner-wiring:{kind}/{proj}"
+        with Ctx(chk.seed) as ctx:
+            names = {}
+
+            def mk(name):
+                if name not in names:
+                    names[name] = ctx.var("T|" + name, None, None, wlo=-2, whi=2)
+                return names[name]
+
+            def body(kind=kind, proj=proj):
+                V = dict(x=ctx.var("x", 0, 1, hi_open=False, wlo=0.1, whi=0.9), y=ctx.var("y", 0, 1, hi_open=False), Q2=ctx.var("Q2", 0, None, wlo=1, whi=200),
+                         MW=ctx.var("MW", 0, None, wlo=70, whi=90), MP=ctx.var("MP", 0, None, wlo=0.5, whi=1.5), GF=ctx.var("GF", 0, None, wlo=1e-5, whi=2e-5))
+                return runner_wiring_pairs(kind, proj, V, mk)
+
+            ex = explore.Explorer(ctx, max_paths=16, timeout_ms=5000)
+            paths = ex.run(body)
+            chk.paths += len(paths)
+            if not any(p.kind == "ok" for p in paths):
+                chk.inconclusive_note(f"{cname}: vacuity -- no computing path ({[str(p.value)[:80] for p in paths[:2]]})")
+            for p in paths:
+                ctx.assign = dict(p.assign)
+                if p.kind == "exc":
+                    if isinstance(p.value, ValueError):
+                        continue
+                    chk.inconclusive_note(f"{cname}: raises {type(p.value).__name__}: {str(p.value)[:100]}")
+                    continue
+
+                def rp_for(lab, ctx=ctx, kind=kind, proj=proj):
+                    def rp(model):
+                        asg = explore.model_to_assign(ctx, model)
+                        g = lambda n: float(asg.get(n, ctx.assign.get(n, 1)))
+                        return "runner", dict(kind=kind, proj=proj, values={k: g(k) for k in ("x", "y", "Q2", "MW", "MP", "GF")})
+                    return rp
+
+                harness.prove_pairs(chk, cname, p.value, ctx.facts() + p.pc, rp_for, lambda lab, kind=kind: f"xs:runner-wiring:{kind}")
     # vacuity / perturbation: swapping yL and y+ must be refuted
     with Ctx(chk.seed) as ctx:
         V = params(ctx)
